@@ -483,7 +483,7 @@ impl Prop for C18 {
     fn evidence(&self, tier: Tier) -> EvidenceSpec {
         EvidenceSpec {
             level: "exploration",
-            rule: "every closed type-directed program that starts with a lambda or a definition group is peeled one, two and three binders deep (contexts mixing plain parameters and groups of one and two definitions, i.e. entries with offsets 0, 1, 2 looked up from depths 0..5); the context vectors are built exactly as the checker pushes them and the real type_check, normalize_weak_head and unify are called on the open body; every fourth program additionally in every single-point perturbation (ill-typed open terms, faults inside nested scopes); plus the computed-annotation family (252 programs: a prefix group with universe aliases, universe-valued functions or aliases of aliases, one to three binders annotated with names of the prefix, six bodies) peeled one to four binders deep. Oracle: same verdict as the closed program; closed type convertible (reference) with the open type bound the same way; the weak-head normal form under the context convertible with the term; unify(t, nf t) true under the context and closed; after every call, accepted or rejected, both context vectors pointer-identical with the same offsets. evaluations = (context, open term) pairs; non-trivial = those whose verdict and type were compared".to_owned(),
+            rule: "every closed type-directed program that starts with a lambda or a definition group is peeled one, two and three binders deep (contexts mixing plain parameters and groups of one and two definitions, i.e. entries with offsets 0, 1, 2 looked up from depths 0..5); the context vectors are built exactly as the checker pushes them and the real type_check, normalize_weak_head and unify are called on the open body; every fourth program additionally in every single-point perturbation (ill-typed open terms, faults inside nested scopes); plus the computed-annotation family (252 programs: a prefix group with universe aliases, universe-valued functions or aliases of aliases, one to three binders annotated with names of the prefix, six bodies) peeled one to four binders deep. Oracle: same verdict as the closed program; closed type convertible (reference) with the open type bound the same way; the weak-head normal form under the context convertible with the term; unify(t, nf t) true under the context and closed; after every call, accepted or rejected, both context vectors pointer-identical with the same offsets. evaluations = (context, open term) pairs; non-trivial = those whose verdict and type were compared The family also holds programs whose parameters have an implicit function type, met by parameters over implicit and over explicit function types (the type a context entry carries is the one that was written).".to_owned(),
             assumptions: vec!["reference conversion with fuel; contexts come from peeling well-typed programs, so they are well formed".to_owned()],
             evaluations: "evaluations",
             nontrivial: "nontrivial",
